@@ -3,6 +3,7 @@ import SJ.Model.Stage2
 import SJ.Model.Walk
 import SJ.Model.WF
 import SJ.Model.Serialize
+import SJ.Model.Stage1Bits
 import SJ.Spec.Json
 import Std.Data.HashMap
 /-
@@ -351,6 +352,27 @@ def step (st : Store) (line : String) : Store × String :=
     | none => (st, "bad-ref")
     | some pj => ({ st with pjs := st.pjs.insert pn { pj with msg := pj.msg.map (fun _ => 0xff) } }, "ok")
   | ["reset"] => ({}, "ok")
+  | ["block", fam, h, po, pq, er, pp] =>
+    match unhex h, po.toNat?, pq.toNat?, er.toNat?, pp.toNat? with
+    | some b, some po, some pq, some er, some pp =>
+      let (stv, c) := blockStep (fam == "512") false b
+        { prevOdd := BitVec.ofNat 64 po, prevInQuote := BitVec.ofNat 64 pq, errMask := BitVec.ofNat 64 er, prevPseudo := BitVec.ofNat 64 pp }
+      (st, s!"{stv.toNat} {c.prevOdd.toNat} {c.prevInQuote.toNat} {c.errMask.toNat} {c.prevPseudo.toNat}")
+    | _, _, _, _, _ => (st, "bad-op")
+  | ["kernels", fam, h, po, pq] =>
+    match unhex h, po.toNat?, pq.toNat? with
+    | some b, some po, some pq =>
+      let k := kernels (fam == "512") b (BitVec.ofNat 64 po) (BitVec.ofNat 64 pq) 0
+      (st, s!"{k.oddEnds.toNat} {k.prevOdd.toNat} {k.quoteMask.toNat} {k.quoteBits.toNat} {k.errMask.toNat} {k.prevInQuote.toNat} {k.whitespace.toNat} {k.structurals.toNat}")
+    | _, _, _ => (st, "bad-op")
+  | ["blockscan", fam, nd, h] =>
+    match unhex h with
+    | some b =>
+      let msg := trimSpace b
+      let (idx, c) := blocksScan (fam == "512") (nd == "1") msg
+      let (s1, idx1) := s1Scan (nd == "1") msg
+      (st, s!"{idx == idx1} {c.errMask != 0} {c.prevInQuote != 0} {s1.err} {s1.inQuote} {idx.size}")
+    | none => (st, "bad-op")
   | ["wf", pn] =>
     match st.pjs[pn]? with
     | none => (st, "bad-ref")
